@@ -215,7 +215,7 @@ JudgeMacro(e, o) ==
     ELSE IF e.m \in {"locale", "locales"} THEN
         LET r == ParseLoc(e.lit) IN
         IF r.zone = "accept" /\ e.st = r.val /\ e.rt_eq THEN Good(o)
-        ELSE IF r.zone = "accept" /\ e.st = r.val THEN Bad("macro-value-not-equal-to-parsed-" \o e.m, unequal, o)
+        ELSE IF r.zone = "accept" /\ e.st = r.val THEN Bad("macro-value-not-equal-to-parsed-" \o e.m, <<"C16", "C12", "C13">>, o)
         ELSE Bad("macro-value-" \o e.m, <<"C16">>, o)
     ELSE IF e.m \in Kinds THEN
         IF IsKind(e.m, e.lit) /\ e.st = CanonKind(e.m, e.lit) /\ e.rt_eq THEN Good(o)
